@@ -56,6 +56,7 @@ def pictures(n, rowb, lowmask=0xFF):
     return pics
 
 
+DEEP = {"mge boundaries", "rat boundaries", "cm3 spikes two=False", "vef boundaries type=0", "vef literals type=3"}
 SPACES = []  # choice trees of the reference encoders; filled by gen() before the worker pool is forked
 
 
@@ -63,6 +64,8 @@ def add_space(run, cases, name, build, expect, feats, max_dev, tool):
     """Registers one encoder choice tree and splits it into independent work items: the default (greedy) encoding and one
     subtree per first deviation (position, alternative); a worker explores its subtree to the remaining deviation budget,
     decodes every distinct encoding with the real tool and judges it."""
+    if max_dev and max_dev > 1 and name not in DEEP:
+        max_dev = 1  # two deviations only for one picture per format (the others keep every single deviation)
     si = len(SPACES)
     SPACES.append({"name": name, "build": build, "expect": expect, "features": list(feats), "max_dev": max_dev, "tool": tool})
     ch = core.Chooser(())
@@ -229,7 +232,8 @@ def run(run):
                 if v:
                     run.violation(v[0], o["features"], {"tool": o["tool"], "label": o["label"], "choices": o["choices"], "data_len": o["len"]}, f"{o['label']} choices={o['choices'][:40]}: {v[1]}")
     run.distinct_n = len(keys)
-    run.caps.append("deviation bound d=%d (choice sequences with more non-default encoder choices are not explored)" % (1 if run.tier == "quick" else 2))
+    run.caps.append("deviation bound d=1 (choice sequences with more non-default encoder choices are not explored)" if run.tier == "quick" else
+                    "deviation bound d=2 for one picture per format (%s), d=1 for the other pictures" % ", ".join(sorted(DEEP)))
 
 
 def replay(case):
